@@ -461,4 +461,72 @@ theorem roundMag_exact (F : Fmt) (a b j : Nat) (hb : 0 < b) (h : a = j * (b * 2 
   rw [rne_mul_exact j _ hc]
   ring
 
+
+/-- **Relative error in the normal range.** If `a/b ≥ 2^mbits` (at least the least normal magnitude),
+    the rounded magnitude is within a relative `2^-(mbits+1)` of `a/b`. -/
+theorem roundMag_rel (F : Fmt) (a b : Nat) (hb : 0 < b) (hn : 2 ^ F.mbits * b ≤ a) :
+    2 * 2 ^ F.mbits * adiff (magOfBits F (roundMag F a b) * b) a ≤ a := by
+  rw [mag_roundMag F a b hb]
+  have hc : 0 < b * 2 ^ kOf F a b := Nat.mul_pos hb (two_pow_pos' _)
+  have hbr := rne_bracket a (b * 2 ^ kOf F a b) hc
+  have e0 : rne a (b * 2 ^ kOf F a b) * 2 ^ kOf F a b * b
+      = rne a (b * 2 ^ kOf F a b) * (b * 2 ^ kOf F a b) := by ring
+  rw [e0]
+  have hPc : 2 ^ F.mbits * (b * 2 ^ kOf F a b) ≤ a := by
+    rcases Nat.eq_zero_or_pos (kOf F a b) with hk | hk
+    · rw [hk]; simpa using hn
+    · obtain ⟨h1, _⟩ := kOf_pos F a b hk
+      have := (Nat.le_div_iff_mul_le hb).1 h1
+      calc 2 ^ F.mbits * (b * 2 ^ kOf F a b) = 2 ^ F.mbits * 2 ^ kOf F a b * b := by ring
+        _ ≤ a := this
+  generalize adiff (rne a (b * 2 ^ kOf F a b) * (b * 2 ^ kOf F a b)) a = d at hbr ⊢
+  calc 2 * 2 ^ F.mbits * d = 2 ^ F.mbits * (2 * d) := by ring
+    _ ≤ 2 ^ F.mbits * (b * 2 ^ kOf F a b) := Nat.mul_le_mul_left _ hbr
+    _ ≤ a := hPc
+
+/-- zero is a finite magnitude, so the rounded magnitude never exceeds twice the exact value -/
+theorem roundMag_le_twice (F : Fmt) (a b : Nat) (hb : 0 < b) :
+    magOfBits F (roundMag F a b) * b ≤ 2 * a := by
+  have h := roundMag_nearest F a b 0 hb
+  have h0 : magOfBits F 0 = 0 := by
+    unfold magOfBits; simp [Nat.zero_div]
+  rw [h0] at h
+  unfold adiff at h
+  omega
+
+/-- the spacing (ulp) at the rounded pattern dominates `a/b · 2^-(mbits+1)` -/
+theorem ulp_lower (F : Fmt) (a b : Nat) (hb : 0 < b) :
+    a < 2 * 2 ^ F.mbits * (ulpOfBits F (roundMag F a b) * b) := by
+  have hP := two_pow_pos' F.mbits
+  obtain ⟨hm1, hm2⟩ := sig_bounds F a b hb
+  unfold ulpOfBits
+  rw [roundMag_eq]
+  generalize hk : kOf F a b = k at *
+  generalize hm : rne a (b * 2 ^ k) = m at *
+  -- a / b < 2P·2^k in every case
+  have hq : a / b < 2 * 2 ^ F.mbits * 2 ^ k := by
+    rcases Nat.eq_zero_or_pos k with h0 | hpos
+    · have := kOf_zero F a b (by omega)
+      subst h0; simpa using this
+    · have := (kOf_pos F a b (by omega)).2
+      rw [hk] at this; exact this
+  have ha : a < 2 * 2 ^ F.mbits * 2 ^ k * b := (Nat.div_lt_iff_lt_mul hb).1 hq
+  -- exponent field ≥ k + 1 when k ≥ 1, and the ulp is 2^(E-1) ≥ 2^k
+  have hE : k ≤ (k * 2 ^ F.mbits + m) / 2 ^ F.mbits - 1 ∨ k = 0 := by
+    rcases Nat.eq_zero_or_pos k with h0 | hpos
+    · right; exact h0
+    · left
+      have hmP := hm2 (by omega)
+      have : (k + 1) * 2 ^ F.mbits ≤ k * 2 ^ F.mbits + m := by rw [Nat.succ_mul]; omega
+      have := (Nat.le_div_iff_mul_le hP).2 this
+      omega
+  have hpow : 2 ^ k ≤ 2 ^ ((k * 2 ^ F.mbits + m) / 2 ^ F.mbits - 1) := by
+    rcases hE with h | h
+    · exact Nat.pow_le_pow_right (by decide) h
+    · subst h; exact two_pow_pos' _
+  calc a < 2 * 2 ^ F.mbits * 2 ^ k * b := ha
+    _ = 2 * 2 ^ F.mbits * (2 ^ k * b) := by ring
+    _ ≤ 2 * 2 ^ F.mbits * (2 ^ ((k * 2 ^ F.mbits + m) / 2 ^ F.mbits - 1) * b) :=
+        Nat.mul_le_mul_left _ (Nat.mul_le_mul_right b hpow)
+
 end SJ.Proofs.Ieee
